@@ -1,8 +1,17 @@
 from spec import H, KaniUnit, Property, VerusUnit
 
 CV = "mithril-common/src/certificate_chain/certificate_verifier.rs"
+EP = "mithril-common/src/entities/epoch.rs"
 PROP = Property(
     "C03", "proof",
+    kani=[KaniUnit(
+        crate="mithril-common",
+        attach=[(EP, "contracts/mithril-common/c20_epoch.rs", "verif_c20")],
+        contracts=[dict(file=EP, fn="has_gap_with", within="impl Epoch",
+                        attrs=["#[cfg_attr(kani, kani::ensures(|r: &bool| *r == !(self.0 == other.0 || (self.0 < u64::MAX && self.0 + 1 == other.0) || (other.0 < u64::MAX && other.0 + 1 == self.0))))]"])],
+        anchors=[(EP, "has_gap_with", "impl Epoch")],
+        harnesses=[H("c03_has_gap_with_contract", "contract",
+                     "#[kani::ensures] on the real Epoch::has_gap_with, all 2^128 inputs: false exactly when the epochs are equal or adjacent", ["Epoch::has_gap_with"])])],
     verus=[VerusUnit(
         "verifier", "verus/C03/verifier.tmpl.rs",
         "extracted real text of the certificate verifier: verify_certificate Ok(Some(p)) ==> p is the retriever's answer for previous_hash and standard_link(c,p) = integrity(c) "
